@@ -325,6 +325,10 @@ func c16Pairs() []c16Pair {
 		// ids that are patterns for a glob / regular expression / printf, matching the other id
 		{"*", "alice", "pattern"}, {"a?ice", "alice", "pattern"}, {"team[a-z]", "teamb", "pattern"}, {"al*", "alice", "pattern"},
 		{"alice", "a.ice", "pattern"}, {"%s", "bob", "pattern"}, {"bob", "b{o,x}b", "pattern"},
+		// one id continues the other after a character that could serve as a separator in a composed key
+		{"acme", "acme:eu", "separator"}, {"acme:eu", "acme", "separator"}, {"org", "org|team", "separator"}, {"org", "org#1", "separator"},
+		{"u", "u;v", "separator"}, {"u,v", "u", "separator"}, {"a=b", "a", "separator"}, {"t", "t~x", "separator"},
+		{"k", "k@host", "separator"}, {"p+q", "p", "separator"},
 	}
 }
 
@@ -401,6 +405,10 @@ func (s *c16Scenario) pickName(w int, forCreate bool, api int) string {
 		return otherId
 	case x == 18 && len(other) > 0:
 		return otherId + "/" + other[r.IntN(len(other))]
+	case x == 19 && len(other) > 0 && strings.HasPrefix(otherId, s.users[w].id) && len(otherId) > len(s.users[w].id)+1:
+		// the other id continues ours after one character: what is left of it, that character again, her collection
+		rest := otherId[len(s.users[w].id):]
+		return rest[1:] + rest[:1] + other[r.IntN(len(other))]
 	}
 	return s.names[r.IntN(len(s.names))]
 }
